@@ -666,6 +666,15 @@ def check_index_ranges(idx: Index, rep: Report):
             dt = next((norm(k.value) for k in n.keywords if k.arg == "dtype"), None)
             if dt is None and norm(n.func).endswith("arange"):
                 dt = "int"                      # arange over integers defaults to the platform integer
+            # a conversion wrapped around the counter (x.astype(T), np.array(x, dtype=T), ...) decides the element type in the end
+            parents = {ch: par for par in ast.walk(f.node) for ch in ast.iter_child_nodes(par)}
+            cur = n
+            while cur in parents and not isinstance(parents[cur], ast.stmt):
+                cur = parents[cur]
+                if isinstance(cur, ast.Call) and isinstance(cur.func, ast.Attribute) and cur.func.attr == "astype" and cur.args:
+                    dt = norm(cur.args[0])
+                elif isinstance(cur, ast.Call) and cur is not n:
+                    dt = next((norm(k.value) for k in cur.keywords if k.arg == "dtype"), dt)
             rep.decide(dt in WIDE_INT, rule, f, n, text=f"{norm(n.func)}({bounds[:60]}) dtype={dt}",
                        what="a 0..n-1 counter array has a fixed wide integer element type (it must hold n-1 for every n)",
                        reason=f"element type is `{dt}`: not a fixed wide integer type, so the counter can wrap or lose precision for large n "
